@@ -10,5 +10,6 @@ MUTANTS = [
     M('C05', 'bit.inc toggles the carry instead of setting it', B + 'math.fj', "        .one carry\n        rep(n, i) .inc.inc1_with_carry0_jump", "        .not carry\n        rep(n, i) .inc.inc1_with_carry0_jump", 'C05.SCRATCH'),
     M('C05', 'bit.mul clears one cell less of its accumulator', B + 'mul.fj', "        .zero n, res\n", "        .zero n-1, res\n", 'C05.SCRATCH', count=2),
     M('C05', 'EQ bit.add clears the carry through the vector form', B + 'math.fj', "        .zero carry\n        rep(n, i) .add1 dst+i*dw, src+i*dw, carry\n", "        .zero 1, carry\n        rep(n, i) .add1 dst+i*dw, src+i*dw, carry\n", None),
+    M('C05', 'bit.shl copies with the unguarded mov (seed C05_2)', B + 'shifts.fj', "        rep(n-times, i) .mov x+(n-1-i)*dw, x+(n-1-i-times)*dw", "        rep(n-times, i) .unsafe_mov x+(n-1-i)*dw, x+(n-1-i-times)*dw", 'C05.ALIAS'),
     M('C05', 'EQ swap stride spelled dw*i', B + 'memory.fj', "        rep(n, i) .swap a+i*dw, b+i*dw", "        rep(n, i) .swap a+dw*i, b+i*dw", None),
 ]
